@@ -58,11 +58,28 @@ package confutil
 //@ props C13 C17
 //@ modifies nothing
 //@ ensures imp(result_of(strconv.ParseBool, 1) != nil, result1 != nil && cause(result1) == ErrCantCastVariableToTargetType)
+// A placeholder value is parsed with the range of the target type: signed targets with ParseInt, unsigned ones with
+// ParseUint, both at the width of the type, so a value outside the type is an error and never a wrap-around.
+//@ spec func signedKind(k reflect.Kind) bool = k == reflect.Int || k == reflect.Int8 || k == reflect.Int16 || k == reflect.Int32 || k == reflect.Int64
+//@ spec func unsignedKind(k reflect.Kind) bool = k == reflect.Uint || k == reflect.Uint8 || k == reflect.Uint16 || k == reflect.Uint32 || k == reflect.Uint64
 //@ func castInt
 //@ props C13 C17
 //@ nilsafe
 //@ requires t != nil
-//@ ensures imp(result_of(strconv.ParseInt, 1) != nil, result1 != nil && cause(result1) == ErrCantCastVariableToTargetType)
+//@ at call strconv.ParseInt assert [signed-targets-only] !unsignedKind(t.Kind())
+//@ at call strconv.ParseInt assert [width-of-the-target-type] arg(a0) == v0 && arg(a2) == t.Bits()
+//@ ensures [unsigned-targets-are-parsed-unsigned] imp(unsignedKind(t.Kind()), calls(strconv.ParseInt) == 0 && calls(castUint) == 1 && result0 == result_of(castUint, 0) && result1 == result_of(castUint, 1))
+//@ ensures imp(calls(strconv.ParseInt) == 1 && result_of(strconv.ParseInt, 1) != nil, result1 != nil && cause(result1) == ErrCantCastVariableToTargetType)
+//@ ensures [a-value-needs-a-successful-parse] imp(result1 == nil && !unsignedKind(t.Kind()), calls(strconv.ParseInt) == 1 && result_of(strconv.ParseInt, 1) == nil)
+//@ at call castUint assert [same-text-and-type] arg(v) == v0 && arg(t) == t0
+
+//@ func castUint
+//@ props C13 C17
+//@ nilsafe
+//@ requires t != nil
+//@ at call strconv.ParseUint assert [width-of-the-target-type] arg(a0) == v0 && arg(a2) == t.Bits()
+//@ ensures imp(result_of(strconv.ParseUint, 1) != nil, result1 != nil && cause(result1) == ErrCantCastVariableToTargetType)
+//@ ensures [a-value-needs-a-successful-parse] imp(result1 == nil, result_of(strconv.ParseUint, 1) == nil)
 //@ func castFloat
 //@ props C13 C17
 //@ nilsafe
